@@ -6,7 +6,6 @@
 //! C02 extras (the bulk of C02 is the panic-freedom reading of the C01 / C12 / C08-fold harnesses,
 //! which this check also runs): break / continue / return cannot escape their construct.
 use super::*;
-use crate::function::{Body, Function, Params};
 use crate::instruction::local_variable::{FunctionInfo, LocalVariableMap, LocalVariables};
 use crate::instruction::r#loop::Loop;
 use crate::unary_operator::UnaryOperator;
@@ -67,9 +66,7 @@ pub fn control_signals_do_not_escape() {
     let ret: Instruction = UnaryOperation { instruction: Instruction::Variable(Variable::Int(x)), op: UnaryOperator::Return }.into();
     let l2 = Loop(iws(ret.clone()));
     assert!(matches!(l2.exec(&mut interp), Err(ExecStop::Return(Variable::Int(v))) if v == x));
-    // inside a function the return is consumed, whatever loop it came out of
-    let lp: Instruction = Loop(iws(ret)).into();
-    let f = Function { ident: None, params: Params(Arc::from(Vec::new())), body: Body::Lang(Arc::from(crate::vv![iws(lp)])), return_type: Type::Int };
-    assert!(matches!(f.exec(&mut interp), Ok(Variable::Int(v)) if v == x));
+    // (inside a function the return is consumed, whatever loop it came out of: C12 return_leaves_innermost_function,
+    //  which this check also runs - one harness with both did not finish in 600 s)
     kani::cover!(true);
 }
